@@ -1,7 +1,7 @@
 #!/bin/bash
 # run_all.sh [tier] [props...] — run the registered checks sequentially, one log per property under /tmp/all
 TIER=${1:-quick}; shift
-PROPS=${@:-C02 C04 C09 C10 C11 C12 C13 C17 C08 C01 C03 C05 C06 C14}
+PROPS=${@:-C15 C17 C12 C08 C10 C11 C09 C13 C07 C02 C04 C01 C03 C05 C06 C14}
 mkdir -p /tmp/all
 cd /verif
 for p in $PROPS; do
